@@ -56,21 +56,22 @@ FAMILY_MONITORS = (("held", P2.mon_held_writer), ("cd", P2.mon_cd_commit), ("gro
                    ("bigrec", P2.mon_big_record), ("weaker", P2.mon_weaker_hash), ("emptydecl", P2.mon_empty_declaration),
                    ("dangling", P2.mon_dangling_link_removal), ("linkedbucket", P2.mon_linked_bucket),
                    ("gonecwd", P2.mon_gone_cwd_link), ("foreigndecl", P2.mon_foreign_declaration),
-                   ("linksize", P2.mon_link_size), ("mixeddecl", P2.mon_mixed_declaration), ("removedkey", P2.mon_removed_key_extraction))
+                   ("linksize", P2.mon_link_size), ("mixeddecl", P2.mon_mixed_declaration), ("removedkey", P2.mon_removed_key_extraction),
+                   ("laws", P2.mon_laws))
 FAMILIES_FOR = {
     "C01": [P2.gen_weaker_hash_programs, P2.gen_foreign_declaration_programs],
     "C02": [P2.gen_cd_commit_programs, P2.gen_grow_programs, P2.gen_held_writer_programs],
     "C04": [P2.gen_cd_commit_programs, P2.gen_held_writer_programs],
-    "C05": [P2.gen_held_writer_programs, P2.gen_big_record_programs],
+    "C05": [P2.gen_held_writer_programs, P2.gen_big_record_programs, lambda: P2.gen_law_programs(("shadow",))],
     "C07": [P2.gen_held_writer_programs],
     "C08": [P2.gen_grow_programs, P2.gen_empty_declaration_programs],
     "C03": [P2.gen_link_size_programs],
-    "C09": [P2.gen_dangling_link_removal_programs],
+    "C09": [P2.gen_dangling_link_removal_programs, lambda: P2.gen_law_programs(("commute", "idempotent"))],
     "C10": [P2.gen_linked_bucket_programs],
     "C11": [P2.gen_big_record_programs, P2.gen_grow_programs],
     "C12": [P2.gen_held_writer_programs],
     "C14": [P2.gen_held_writer_programs, P2.gen_empty_declaration_programs],
-    "C15": [P2.gen_big_record_programs],
+    "C15": [P2.gen_big_record_programs, lambda: P2.gen_law_programs(("reads",))],
     "C16": [P2.gen_cd_commit_programs, P2.gen_grow_programs],
     "C17": [P2.gen_mixed_declaration_programs],
     "C18": [P2.gen_removed_key_extraction_programs],
